@@ -78,7 +78,7 @@ def units(run: Run):
     g3 = A.a3_sa() if quick else A.a3_sa((-2, -1, 0, 1, 2))
     for i, g in enumerate(g3):
         for tag, gv in A.with_shifts([g], 3):
-            us.append((3, f"{tag}#{i}", gv, ("fresh", "euler", "dirty2"), 0.0))
+            us.append((3, f"{tag}#{i}", gv, ("fresh", "euler", "dirty2" if tag == "shift" else "dirty1"), 0.0))
         for tag, gv in A.with_scales([g], 3):      # huge additive part with a small surplus on top; tiny units
             us.append((3, f"{tag}#{i}", gv, ("fresh", "euler"), 0.0))
     if quick:
